@@ -369,7 +369,7 @@ SetTop(s, fr) == [s EXCEPT !.stack[Len(s.stack)] = fr]
 DepDur(d) ==
     CASE d.t = "in" -> st.inp[d.a][d.b].d
       [] d.t \in {"fn", "sfn", "ifn"} -> Fn(d.k).dur
-      [] d.t = "fld" -> Struct(d.k).d
+      [] d.t = "fld" -> IF d.b = 0 THEN 3 ELSE Struct(d.k).d    \* reading an identity (untracked) field records no dependency
       [] d.t = "int" -> 3     \* an edge is only recorded for LOW values, by LOW interners: no effect
       [] OTHER -> 0
 
@@ -412,14 +412,24 @@ OnRd ==
              ELSE IF d.t = "int" THEN SetTop(st, [fr EXCEPT !.deps = fr.deps])   \* reading a field records no edge
              ELSE s2
 
+\* salsa identifies a tracked struct by (creator, hash of the identity fields, disambiguator); identity-field
+\* values >= 10 share one hash in the harness (structcoll family)
+HashClass(i) == IF i >= 10 THEN 10 ELSE i
+IdStr(ix, gn) == ToString(ix) \o "." \o ToString(gn)
+
 OnNew ==
     LET fr == Top
         k == fr.k
-        ord == Cardinality({i \in 1..Len(fr.news) : fr.news[i].ident = ev.ident}) + 1
+        ord == Cardinality({i \in 1..Len(fr.news) : HashClass(fr.news[i].ident) = HashClass(ev.ident)}) + 1
         prev == Fn(k).news
-        prevSame == SelectSeq(prev, LAMBDA r : r.ident = ev.ident)
+        prevSame == SelectSeq(prev, LAMBDA r : HashClass(r.ident) = HashClass(ev.ident))
         old == Struct(ev.id)
         same == old.live /\ old.creator = k /\ old.ident = ev.ident
+        \* the struct that held this slot in its previous generation, replaced in place when the identity
+        \* fields differ under the same identity hash (no discard event is emitted for it)
+        prevGen == IF ev.gn > 0 THEN IdStr(ev.ix, ev.gn - 1) ELSE ""
+        replaced == prevGen # "" /\ prevGen \in DOMAIN st.structs /\ st.structs[prevGen].live
+                    /\ st.structs[prevGen].creator = k /\ prevGen # ev.id
         dnow == fr.dmin
         sr == [creator |-> k, cj |-> fr.kj, pos |-> ev.pos, ident |-> ev.ident, ord |-> ord,
                x |-> ev.x, y |-> ev.y,
@@ -429,14 +439,21 @@ OnNew ==
         fr2 == [fr EXCEPT !.news = Append(fr.news, [ident |-> ev.ident, id |-> ev.id])]
     IN
     /\ Len(st.stack) > 0
-    /\ (Strict /\ ~st.cyc /\ Fn(k).has /\ ord <= Len(prevSame) /\ Struct(prevSame[ord].id).live) =>
+    /\ (Strict /\ ~st.cyc /\ Fn(k).has /\ ord <= Len(prevSame) /\ Struct(prevSame[ord].id).live /\ prevSame[ord].ident = ev.ident) =>
           Check("C06", prevSame[ord].id = ev.id,
                 <<"recreated struct received a different identity", k, ev.ident, ord, prevSame[ord].id, ev.id>>)
+    /\ (Strict /\ ~st.cyc /\ Fn(k).has /\ ord <= Len(prevSame) /\ prevSame[ord].ident # ev.ident) =>
+          CheckAll({"C06", "C07"}, ev.id \notin DOMAIN st.structs,
+                <<"struct with different identity fields received an identity that was handed out before", k, ev.ident, prevSame[ord].ident, ev.id>>)
+    /\ (Strict /\ ev.id \in DOMAIN st.structs /\ ~old.live) =>
+          CheckAll({"C06", "C07"}, FALSE,
+                <<"identity of a discarded struct handed out again", ev.id, old.creator, old.ident, k, ev.ident>>)
     /\ Strict => Check("C06", \A i \in 1..Len(fr.news) : fr.news[i].id # ev.id,
              <<"two structs of one execution share an identity", k, ev.id>>)
     /\ (Strict /\ old.live) => Check("C06", old.creator = k /\ old.ident = ev.ident /\ old.ord = ord,
              <<"identity of a live struct handed to a different struct", ev.id, old.creator, k>>)
-    /\ st' = PutStruct(SetTop(st, fr2), ev.id, sr)
+    /\ st' = LET s1 == PutStruct(SetTop(st, fr2), ev.id, sr) IN
+             IF replaced THEN PutStruct(s1, prevGen, [s1.structs[prevGen] EXCEPT !.live = FALSE]) ELSE s1
 
 OnBe ==
     LET fr == Top
@@ -455,7 +472,7 @@ OnBe ==
                         !.news = fr.news, !.running = FALSE, !.assigned = FALSE,
                         !.kj = fr.kj, !.km = fr.km, !.ki = fr.ki]
         s2 == PutFn([st EXCEPT !.stack = SubSeq(st.stack, 1, Len(st.stack) - 1),
-                               !.pend = IF f.has THEN st.pend \cup (oldIds \ newIds) ELSE st.pend],
+                               !.pend = IF f.has THEN st.pend \cup {i \in oldIds \ newIds : Struct(i).live} ELSE st.pend],
                     k, f2)
     IN
     /\ Len(st.stack) > 0
@@ -505,8 +522,6 @@ OnIrec ==
     IF c \in 1..3
     THEN st' = [st EXCEPT !.iq[c] = <<ev.rev>> \o SubSeq(st.iq[c], 1, c - 1)]
     ELSE st' = st
-
-IdStr(ix, gn) == ToString(ix) \o "." \o ToString(gn)
 
 \* a fresh slot
 OnDiv ==
